@@ -1,5 +1,5 @@
 (* Model of the SCTP wire codec of aiortc (src/aiortc/rtcsctptransport.py,
-   lines ~88-540 of the REPAIRED tree): decode_params / encode_params / padl,
+   lines ~88-560 of the REPAIRED tree): decode_params / encode_params / padl,
    the Chunk class hierarchy (__init__ = parse of a chunk body, __bytes__ /
    body = serialisation), parse_packet / serialize_packet and the three
    RE-CONFIG parameter classes.  struct.error / IndexError are explicit Crash
@@ -235,6 +235,10 @@ Definition chunk_ctor (ty flags : Z) (body : bytes) : option (result chunk) :=
   else if ty =? 192 then Some (fwd_ctor flags body)
   else None.
 
+(* chunk_cls in CHUNK_CLASSES_WITH_FIXED_PART (Data, Init, InitAck, Sack, Shutdown, ForwardTsn) *)
+Definition has_fixed_part (ty : Z) : bool :=
+  (ty =? 0) || (ty =? 1) || (ty =? 2) || (ty =? 3) || (ty =? 7) || (ty =? 192).
+
 (* ---- serialisation ---------------------------------------------------------- *)
 Definition pair_bytes (p : Z * Z) : bytes := be16 (fst p) ++ be16 (snd p).
 
@@ -315,7 +319,9 @@ Fixpoint parse_chunks (fuel : nat) (data : bytes) (pos : nat) : result (list chu
               let next := (pos + Z.to_nat (chunk_length + padl chunk_length))%nat in
               match chunk_ctor chunk_type chunk_flags chunk_body with
               | Some r =>
-                  bind r (fun c => bind (parse_chunks fuel' data next) (fun cs => Ok (c :: cs)))
+                  (* a received chunk of a class with mandatory fields must not be empty *)
+                  if negb (nonempty chunk_body) && has_fixed_part chunk_type then ValueErr
+                  else bind r (fun c => bind (parse_chunks fuel' data next) (fun cs => Ok (c :: cs)))
               | None => parse_chunks fuel' data next
               end
         | _, _, _ => Crash
